@@ -27,12 +27,40 @@ impl StageOut {
 /// Run `runs` scenarios produced by `gen(index)` through `exec`, with triage (minimise + known
 /// findings) of every violation. Statistics are merged into `total`.
 pub fn run_stage(name: &str, runs: u64, wall_cap: Duration, total: &mut Stats, gen: &(dyn Fn(u64) -> Scenario + Sync), exec: &Exec, samples: &[u64], sample_ops: usize) -> StageOut {
+    run_stage_opt(name, runs, wall_cap, total, gen, exec, samples, sample_ops, false)
+}
+
+/// Execute one scenario in a freshly started child process (no state left behind by other runs,
+/// no other thread running). Used by C05, where the defect looked for IS hidden process state.
+pub fn hermetic_exec(prop: &str, sc: &Scenario) -> Result<Option<Violation>, String> {
+    use std::io::Write;
+    let exe = std::env::current_exe().map_err(|e| e.to_string())?;
+    let mut ch = std::process::Command::new(exe)
+        .args(["exec-stdin", prop])
+        .env("VERIF_DRY", "1")
+        .stdin(std::process::Stdio::piped())
+        .stdout(std::process::Stdio::piped())
+        .stderr(std::process::Stdio::null())
+        .spawn()
+        .map_err(|e| e.to_string())?;
+    ch.stdin.take().unwrap().write_all(serde_json::to_string(sc).unwrap().as_bytes()).map_err(|e| e.to_string())?;
+    let out = ch.wait_with_output().map_err(|e| e.to_string())?;
+    let text = String::from_utf8_lossy(&out.stdout);
+    let line = text.lines().find(|l| l.starts_with("RESULT ")).ok_or_else(|| format!("child gave no result: {}", text))?;
+    serde_json::from_str::<Option<Violation>>(&line[7..]).map_err(|e| e.to_string())
+}
+
+/// `hermetic`: violations are confirmed and minimised in fresh child processes; a violation that
+/// cannot be confirmed that way is remembered but the search goes on for one that can.
+#[allow(clippy::too_many_arguments)]
+pub fn run_stage_opt(name: &str, runs: u64, wall_cap: Duration, total: &mut Stats, gen: &(dyn Fn(u64) -> Scenario + Sync), exec: &Exec, samples: &[u64], sample_ops: usize, hermetic: bool) -> StageOut {
     let c = report::ctx();
     report::set_stage(name);
     let plain = |sc: &Scenario| -> Option<Violation> {
         let mut st = Stats::default();
         exec(sc, &mut st)
     };
+    let unconfirmed: std::sync::Mutex<Option<(u64, Scenario, Violation)>> = std::sync::Mutex::new(None);
     // fixed corpora have no schedule to count
     let track_prefix = !name.starts_with("sweep") && !name.starts_with("grid");
     let b = run_batch(runs, c.jobs, wall_cap, Duration::from_secs(60), |i, st| {
@@ -51,6 +79,30 @@ pub fn run_stage(name: &str, runs: u64, wall_cap: Duration, total: &mut Stats, g
             st.samples.push(json!({"stage": name, "run": i, "total_ops": total_ops, "scenario_first_ops": short}));
         }
         match exec(&sc, st) {
+            Some(v) if hermetic => {
+                let prop = v.property.clone();
+                let herm = |c: &Scenario| hermetic_exec(&prop, c).unwrap_or(None);
+                match herm(&sc) {
+                    Some(v2) => match report::triage(sc, v2, &herm) {
+                        Triage::Known(line) => {
+                            st.known_findings.push(line);
+                            RunResult::Ok
+                        }
+                        Triage::New(b) => RunResult::Violation(b),
+                    },
+                    None => {
+                        // real (the unchanged code cannot mismatch) but dependent on state outside this scenario
+                        st.bump("violations_not_reproducible_in_a_fresh_process");
+                        let mut u = unconfirmed.lock().unwrap();
+                        if u.as_ref().map_or(true, |(r, _, _)| i < *r) {
+                            let mut v = v;
+                            v.detail.push_str(" [found in the batch process but NOT reproducible from this scenario alone in a fresh process: it depends on state left behind by other runs/threads, on addresses or on time - which is itself what C05 forbids]");
+                            *u = Some((i, sc, v));
+                        }
+                        RunResult::Ok
+                    }
+                }
+            }
             Some(v) => match report::triage(sc, v, &plain) {
                 Triage::Known(line) => {
                     st.known_findings.push(line);
@@ -62,7 +114,13 @@ pub fn run_stage(name: &str, runs: u64, wall_cap: Duration, total: &mut Stats, g
         }
     });
     total.merge(b.stats);
-    let found = b.found.map(|f| {
+    let mut bfound = b.found;
+    if bfound.is_none() {
+        if let Some((run, scenario, violation)) = unconfirmed.lock().unwrap().take() {
+            bfound = Some(Found { run, scenario, violation });
+        }
+    }
+    let found = bfound.map(|f| {
         let n = gen(f.run).ops.len();
         (f, n)
     });
